@@ -140,7 +140,9 @@ def judge_fault(s, g, tree, fault, st, default_ns, use_lxml, xsd, switch=False):
         # unresolved IDREFs are document-level errors: the library reports them at the root
         out.append(rec('no_error_at_damaged_node_or_parent', 'an error located at the node or its parent',
                        [e.path for e in errs][:4], []))
-    if kind not in ('dup_key', 'dangling_keyref', 'dup_id', 'dangling_idref', 'dangling_default_idref'):
+    # duplicates are reported at the LATER of the two equal nodes (which may be the undamaged one); dangling references
+    # are reported at the scope element / the root, i.e. on the ancestor chain of the damaged node
+    if kind not in ('dup_key', 'dup_id'):
         outside = [e.path for e in errs if e.elem is not None and e.elem not in anc and e.elem not in sub]
         if outside:
             out.append(rec('error_outside_chain_and_subtree', 'no error outside the ancestor chain and subtree',
